@@ -143,6 +143,18 @@ func runC03(c *core.Ctx) {
 		en := rnd.Range(s, k0)
 		dst := w.Slice(root, s, en, "dst")
 		w.Slice(root, 0, k0, "whole")
+		// a few more destinations of other sizes in the same world: storage that
+		// one of them outgrows must never come back as the "new" storage of
+		// another while views of it are alive
+		dsts := []*mon.View{dst}
+		for j := 0; j < rnd.Range(0, 3); j++ {
+			kk := rnd.Range(1, 6)
+			ob := t.Alloc(signal.Allocator{Channels: ch, Length: kk, Capacity: kk})
+			stampAll(w, ob)
+			ov := w.Adopt(ob, fmt.Sprintf("dst%d", j+2))
+			w.Slice(ov, 0, kk, fmt.Sprintf("watch%d", j+2))
+			dsts = append(dsts, ov)
+		}
 		d := map[string]any{"type": t.Name, "channels": ch, "root_frames": k0, "dst_window": []int{s, en}}
 		steps := rnd.Range(1, 20)
 		c.Sample("chain", d)
@@ -171,10 +183,17 @@ func runC03(c *core.Ctx) {
 				stampAll(w, sb)
 				src = w.Adopt(sb, "src")
 			}
-			if !e.doAppend(dst, src, caseID, d, st) {
+			target := dsts[rnd.Intn(len(dsts))]
+			if src != dst && src.M.St == root.M.St && target != dst {
+				target = dst // sources carved from the root are only valid for the window destination
+			}
+			if target != dst && src == dst {
+				src = target // self-append of the chosen destination
+			}
+			if !e.doAppend(target, src, caseID, d, st) {
 				break
 			}
-			if len(w.Views) > 10 {
+			if len(w.Views) > 16 {
 				w.Drop(len(w.Views) - 1)
 			}
 		}
